@@ -31,6 +31,7 @@ RULE = (
     "invocation log, cache_info and cache_parameters equal those of functools.lru_cache (until the first "
     "discard) and of the LRU model (always). Non-trivial: >=1 hit and (>=1 eviction or discard or typed or "
     "failing call); distinct = distinct (configuration, history) by 64-bit hash."
+    " Extensions of rounds 9-12: instances that all compare equal; clause: the function is invoked with the instance the call was made through."
 )
 COMPONENTS = dict(COMPONENTS_BASE, models=["15-line OrderedDict LRU keyed by functools._make_key (for cache_discard), "
                                            "cross-checked against functools.lru_cache in the same run"])
